@@ -13,7 +13,7 @@ META = {
     "technique": "Lean 4 proof (induction over the sift loops, omega) + slot-for-slot replay of the real heap + differential run + timing oracle with one-sided comparisons",
 }
 
-THEOREMS = ["C11.timer_armed_whatever_leeway", "C11.timer_config_bounds", "C11.heap_order_restored", "C11.heap_ops_preserve_order", "C11.minimum_is_reported", "C11.heap_contents_preserved",
+THEOREMS = ["C11.timer_armed_whatever_leeway", "C11.timer_config_bounds", "C11.interval_source_first_fire", "C11.interval_closest_rounding_fires_early", "C11.heap_order_restored", "C11.heap_ops_preserve_order", "C11.minimum_is_reported", "C11.heap_contents_preserved",
             "C11.interleaving_is_two_heaps", "C11.reprogram_when_root_changes", "C11.missed_count_is_boundaries", "C11.count_never_exceeds_boundaries", "C11.latched_firing_count_bounded", "C11.oneshot_never_refires"]
 
 
@@ -114,6 +114,8 @@ def run(ctx):
     # the count clause under overrun: microsecond timers whose handler lags, the manager held inside _dispatch_timers_run now and then
     from tracecheck import run_traces
     run_traces(ctx, "c11_fast", [[ctx.seed * 10 + i, 4000 if ctx.thorough else 1200] for i in range(3 if ctx.thorough else 2)], None, None, "L-api overrun counts", "fast", timeout=300)
+    # interval sources: their configuration is computed by a function of its own (first fire = next multiple of the interval)
+    run_traces(ctx, "c11_interval", [[ctx.seed * 10 + i, 6 if ctx.thorough else 2] for i in range(3 if ctx.thorough else 2)], None, None, "L-api interval sources", "interval", timeout=300)
     ctx.cov["rule"] = ("heap: seeded random insert/remove/update histories on the real heap (live populations of 2 to 3000 timers, segment grow/shrink), every slot compared after "
                        "every operation with the proved functions; compute_missed: generated (target, interval, now, prev) incl. clamp and one-shot cases; oracle: populations of "
                        "dispatch_after blocks and timer sources on the three clocks with cancel / set_timer / suspend churn. distinct_nontrivial counts operations / inputs / timers")
